@@ -95,15 +95,7 @@ Lemma good_weaken e s s' k k' : good e s s' k -> (forall x, In x k' -> In x k) -
 Proof. intros [A [B [C D]]] H. repeat split; auto. Qed.
 
 (* ------------------------------------------------------------------ the invariant *)
-Record inv (s : st) : Prop := mkInv {
-  inv_nodup : NoDup (map t_id (s_roster s));
-  inv_owner : forall t e, In t (s_roster s) -> t_owner t = Some e -> fst (t_id t) = e;
-  inv_snap_r : forall p t, In p (s_snaps s) -> In t (s_roster s) -> fst (t_id t) <> fst p;
-  inv_snap_e : forall p x, In p (s_snaps s) -> In x (s_envs s) -> e_id x <> fst p;
-  inv_envs : NoDup (map e_id (s_envs s));
-  inv_bound : forall x t, In x (s_envs s) -> In t (s_roster s) -> t_owner t = Some (e_id x) ->
-                          In (t_id t) (bound_tids x)
-}.
+
 
 Lemma inv_st0 : inv st0.
 Proof. constructor; cbn; try constructor; intros; contradiction. Qed.
@@ -449,6 +441,7 @@ Qed.
 (* a request for [e], seen from everybody else: [new] are the tasks launched for [e] on the way *)
 Definition framed (e : N) (s s' : st) (u : out) : Prop :=
   exists new,
+    (forall t, In t new -> t_owner t = Some e /\ fst (t_id t) = e) /\
     NoDup (map t_id (s_roster s ++ new)) /\
     emoves e (s_roster s ++ new) (s_roster s') /\
     envs_kept e (s_envs s) (s_envs s') /\
@@ -456,12 +449,13 @@ Definition framed (e : N) (s s' : st) (u : out) : Prop :=
 
 Lemma good_framed e s s' u : inv s -> good e s s' (ks u) -> framed e s s' u.
 Proof.
-  intros I [A [B [C D]]]. exists []. rewrite app_nil_r. repeat split; auto.
+  intros I [A [B [C D]]]. exists []. rewrite app_nil_r. split; [intros t []|]. repeat split; auto.
   - apply I.
   - apply lmoves_kept, B.
 Qed.
 
 Lemma framed_mid e s sm s' new u K :
+  (forall t, In t new -> t_owner t = Some e /\ fst (t_id t) = e) ->
   NoDup (map t_id (s_roster s ++ new)) ->
   emoves e (s_roster s ++ new) (s_roster sm) ->
   envs_kept e (s_envs s) (s_envs sm) ->
@@ -469,7 +463,7 @@ Lemma framed_mid e s sm s' new u K :
   (forall k, In k (ks u) -> In k K \/ touched e (s_roster s ++ new) k) ->
   framed e s s' u.
 Proof.
-  intros Hnd Hm He [A [B [C D]]] Hk. exists new. repeat split; auto.
+  intros Hn Hnd Hm He [A [B [C D]]] Hk. exists new. split; [exact Hn|]. repeat split; auto.
   - eapply emoves_trans; eauto.
   - eapply envs_kept_trans; [exact He|apply lmoves_kept, B].
   - intros k Hin. destruct (Hk k Hin) as [H|H]; [|exact H].
@@ -489,7 +483,7 @@ Proof.
   set (s0 := mkSt (s_envs s) (s_roster s) (remove_snap e (s_snaps s))).
   assert (I0 : inv s0) by (apply inv_remove_snap, I).
   assert (F0 : framed e s s0 (out_rc 1)).
-  { exists []. rewrite app_nil_r. repeat split; [apply I|constructor|apply envs_kept_refl|intros k []]. }
+  { exists []. rewrite app_nil_r. split; [intros t []|]. repeat split; [apply I|constructor|apply envs_kept_refl|intros k []]. }
   destruct (N.leb 1 (c_fail c) && N.leb (c_fail c) 3).
   { intro H; injection H as <- <-. auto. }
   destruct (existsb _ (c_dets c)).
@@ -504,7 +498,7 @@ Proof.
     { pose proof (inv_launch s e snapdets xe [] I Ea eq_refl) as L. rewrite app_nil_r in L.
       apply L; [constructor|intros t []]. }
     split; [eapply good_inv; eauto|].
-    eapply (framed_mid e s _ s2 []); [rewrite app_nil_r; apply I| | |exact G|].
+    eapply (framed_mid e s _ s2 []); [intros t []|rewrite app_nil_r; apply I| | |exact G|].
     - rewrite app_nil_r. constructor.
     - cbn [with_envs s_envs s0]. apply envs_kept_app.
     - intros k Hk. unfold ks in Hk. rewrite Ecm, app_nil_r in Hk. left. exact Hk. }
@@ -518,6 +512,9 @@ Proof.
   { intros x X1 X2 X3 t Ht. split.
     - unfold new in Ht. apply in_map_iff in Ht. destruct Ht as [ir [<- _]]. reflexivity.
     - rewrite (bound_tids_shape x x1) by (auto). rewrite <- Hids. apply in_map, Ht. }
+  assert (HnewO : forall t, In t new -> t_owner t = Some e /\ fst (t_id t) = e).
+  { intros t Ht. destruct (Hnew x1 eq_refl eq_refl eq_refl t Ht) as [H1 H2]. split; [exact H1|].
+    apply bound_tids_fst in H2. exact H2. }
   assert (IL : forall x, e_id x = e -> e_roles x = e_roles x1 -> e_bound x = true ->
                inv (mkSt (s_envs s ++ [x]) (s_roster s ++ new) (remove_snap e (s_snaps s)))).
   { intros x X1 X2 X3. eapply inv_launch; eauto. }
@@ -529,7 +526,7 @@ Proof.
     destruct (create_tail xe _ [] _) as [s2 u2] eqn:Ec. intro H; injection H as <- <-.
     apply create_tail_good in Ec. destruct Ec as [G Ecm]. change (e_id xe) with e in G.
     split; [eapply good_inv; [|exact G]; apply (IL xe); reflexivity|].
-    eapply (framed_mid e s _ s2 new); [exact NDall| | |exact G|].
+    eapply (framed_mid e s _ s2 new); [exact HnewO|exact NDall| | |exact G|].
     - cbn [s_roster s0]. constructor.
     - cbn [s_envs s0]. apply envs_kept_app.
     - intros k Hk. unfold ks in Hk. rewrite Ecm, app_nil_r in Hk. left. exact Hk. }
@@ -553,15 +550,165 @@ Proof.
     destruct (create_tail xe _ targets _) as [s2 u2] eqn:Ec. intro H; injection H as <- <-.
     apply create_tail_good in Ec. destruct Ec as [G Ecm]. change (e_id xe) with e in G.
     split; [eapply good_inv; [|exact G]; apply (I2 xe); reflexivity|].
-    eapply (framed_mid e s _ s2 new); [exact NDall| | |exact G|].
+    eapply (framed_mid e s _ s2 new); [exact HnewO|exact NDall| | |exact G|].
     - cbn [s_roster]. constructor. constructor.
     - cbn [s_envs s0]. apply envs_kept_app.
     - intros k Hk. unfold ks in Hk. rewrite Ecm in Hk. apply in_app_or in Hk.
       destruct Hk as [Hk|Hk]; [left; exact Hk|right; apply Tt, Hk]. }
   intro H; injection H as <- <-.
   split; [apply (I2 (set_estate ES_CONFIGURED x2)); reflexivity|].
-  eapply (framed_mid e s _ _ new); [exact NDall| | |apply good_refl|].
+  eapply (framed_mid e s _ _ new); [exact HnewO|exact NDall| | |apply good_refl|].
   - cbn [s_roster]. constructor. constructor.
   - cbn [s_envs s0]. apply envs_kept_app.
   - intros k Hk. unfold ks in Hk. cbn [o_kills o_cmds app] in Hk. right. apply Tt, Hk.
 Qed.
+
+(* ------------------------------------------------------------------ one step of a well-formed history *)
+Lemma nodup_app_r {A} (a b : list A) : NoDup (a ++ b) -> NoDup b.
+Proof.
+  induction a as [|x a IH]; cbn [app]; [auto|]. intro H. inversion H; subst. auto.
+Qed.
+
+Lemma cleanup_all_locked new :
+  (forall t, In t new -> is_locked t = true) -> cleanup new = (new, []).
+Proof.
+  induction new as [|a l IH]; intro H; cbn [cleanup]; [reflexivity|].
+  rewrite IH by (intros t Ht; apply H; right; exact Ht).
+  rewrite (H a (or_introl eq_refl)). reflexivity.
+Qed.
+
+Lemma cleanup_app_locked r new :
+  (forall t, In t new -> is_locked t = true) ->
+  cleanup (r ++ new) = (fst (cleanup r) ++ new, snd (cleanup r)).
+Proof.
+  intro H. induction r as [|a r IH]; cbn [app cleanup].
+  - rewrite cleanup_all_locked by exact H. reflexivity.
+  - rewrite IH. destruct (cleanup r) as [r'' k]. cbn [fst snd].
+    destruct (negb (is_locked a)); reflexivity.
+Qed.
+
+Lemma inv_add_snap s e d :
+  inv s -> (forall x, In x (s_envs s) -> e_id x <> e) -> (forall t, In t (s_roster s) -> fst (t_id t) <> e) ->
+  inv (mkSt (s_envs s) (s_roster s) ((e, d) :: remove_snap e (s_snaps s))).
+Proof.
+  intros I He Hr. constructor; cbn [s_roster s_envs s_snaps]; try apply I.
+  - intros p t [<-|Hp] Ht; [apply Hr, Ht|]. apply remove_snap_In in Hp. apply (inv_snap_r s I); tauto.
+  - intros p x [<-|Hp] Hx; [apply He, Hx|]. apply remove_snap_In in Hp. apply (inv_snap_e s I); tauto.
+Qed.
+
+Lemma dies_inv id s : inv s -> inv (with_roster s (task_dies id (s_roster s))).
+Proof.
+  intro I. unfold with_roster. constructor; cbn [s_roster s_envs s_snaps]; try apply I.
+  - rewrite dies_ids. apply I.
+  - intros t' e Hin Ho. apply dies_spec in Hin. destruct Hin as [t [Ht [->|[_ ->]]]].
+    + eapply inv_owner; eauto.
+    + cbn [set_dead t_id t_owner] in *. eapply inv_owner; eauto.
+  - intros p t' Hp Hin. apply dies_spec in Hin. destruct Hin as [t [Ht [->|[_ ->]]]];
+      [|cbn [set_dead t_id]]; eapply inv_snap_r; eauto.
+  - intros x t' Hx Hin Ho. apply dies_spec in Hin. destruct Hin as [t [Ht [->|[_ ->]]]].
+    + eapply inv_bound; eauto.
+    + cbn [set_dead t_id t_owner] in *. eapply inv_bound; eauto.
+Qed.
+
+Lemma snap_spec e s s' u :
+  inv s -> usedb s e = false -> snap e false s = (s', u) ->
+  inv s' /\ o_cmds u = [] /\ o_kills u = snd (cleanup (s_roster s)) /\
+  s_roster s' = fst (cleanup (s_roster s)) /\ s_envs s' = s_envs s.
+Proof.
+  intros I Hu. unfold snap. destruct (cleanup (s_roster s)) as [r' k] eqn:Ec.
+  intro H; injection H as <- <-. cbn [o_cmds o_kills s_roster s_envs fst snd].
+  split; [|auto]. apply usedb_false in Hu. destruct Hu as [U1 [U2 U3]].
+  assert (I1 : inv (mkSt (s_envs s) r' (s_snaps s))).
+  { eapply good_inv; [exact I|]. apply (good_mk 0 s r' (s_envs s) []); [|constructor|intros x []].
+    replace r' with (fst (cleanup (s_roster s))) by (rewrite Ec; reflexivity). constructor. constructor. }
+  apply (inv_add_snap _ e _ I1); cbn [s_envs s_roster]; [exact U1|].
+  intros t Ht. apply U2. apply cleanup_sub. rewrite Ec. exact Ht.
+Qed.
+
+Definition frame_of (o : op) (s s' : st) (u : out) : Prop :=
+  match op_env o with
+  | Some e => framed e s s' u
+  | None => forall e, framed e s s' u
+  end.
+
+Lemma step_spec s o s' u :
+  inv s -> wf_op s o = true -> step s o = (s', u) ->
+  inv s' /\ (is_request o = true -> frame_of o s s' u).
+Proof.
+  intros I W. destruct o as [e missing|e c|e c|e ev fail|e force allow keep tfail| |ids|t];
+    cbn [step wf_op is_request] in *; unfold frame_of; cbn [op_env].
+  - (* OSnap *)
+    apply negb_true_iff in W. destruct missing.
+    { unfold snap. intro H; injection H as <- <-. split; [exact I|]. intros _.
+      apply good_framed; [exact I|apply good_refl]. }
+    intro H. destruct (snap_spec e s s' u I W H) as [I' [Hc [Hk [Hr He]]]]. split; [exact I'|].
+    intros _. exists []. rewrite app_nil_r. split; [intros t []|]. repeat split.
+    + apply I.
+    + rewrite Hr. constructor. constructor.
+    + rewrite He. apply envs_kept_refl.
+    + intros k Hin. unfold ks in Hin. rewrite Hc, app_nil_r, Hk in Hin. apply cleanup_touched, Hin.
+  - (* OFinish *)
+    intro H. destruct (finish_spec e c s s' u I H) as [I' F]. auto.
+  - (* OCreate *)
+    apply andb_true_iff in W. destruct W as [W _]. apply negb_true_iff in W.
+    destruct (N.eqb (c_fail c) 1).
+    { unfold snap. intro H; injection H as <- <-. split; [exact I|]. intros _.
+      apply good_framed; [exact I|apply good_refl]. }
+    destruct (snap e false s) as [s1 o1] eqn:Es.
+    destruct (finish e c s1) as [s2 o2] eqn:Ef. intro H; injection H as <- <-.
+    destruct (snap_spec e s s1 o1 I W Es) as [I1 [Hc [Hk [Hr He]]]].
+    destruct (finish_spec e c s1 s2 o2 I1 Ef) as [I2 [new [Hn [Hnd [Hm [Hke Hkt]]]]]].
+    split; [exact I2|]. intros _.
+    apply usedb_false in W. destruct W as [U1 [U2 U3]].
+    assert (Hl : forall t, In t new -> is_locked t = true).
+    { intros t Ht. apply is_locked_true. exists e. apply Hn, Ht. }
+    assert (Ecl : cleanup (s_roster s ++ new) = (s_roster s1 ++ new, o_kills o1)).
+    { rewrite cleanup_app_locked by exact Hl. rewrite Hr, Hk. reflexivity. }
+    assert (M0 : emoves e (s_roster s ++ new) (s_roster s1 ++ new)).
+    { replace (s_roster s1 ++ new) with (fst (cleanup (s_roster s ++ new))) by (rewrite Ecl; reflexivity).
+      constructor. constructor. }
+    exists new. split; [exact Hn|]. repeat split.
+    + rewrite map_app. apply nodup_app; [apply I| |].
+      * rewrite map_app in Hnd. apply nodup_app_r in Hnd. exact Hnd.
+      * intros k H1 H2. apply in_map_iff in H1. destruct H1 as [t1 [E1 T1]].
+        apply in_map_iff in H2. destruct H2 as [t2 [E2 T2]].
+        apply (U2 t1 T1). rewrite E1, <- E2. apply Hn, T2.
+    + eapply emoves_trans; eauto.
+    + rewrite <- He. exact Hke.
+    + intros k Hin. apply ks_out_seq in Hin. apply in_app_or in Hin. destruct Hin as [Hin|Hin].
+      * unfold ks in Hin. rewrite Hc, app_nil_r in Hin. apply cleanup_touched. rewrite Ecl. exact Hin.
+      * eapply touched_mono; [exact M0|]. apply Hkt, Hin.
+  - (* OControl *)
+    intro H. apply control_good in H. split; [eapply good_inv; eauto|]. intros _. apply good_framed; auto.
+  - (* ODestroy *)
+    intro H. apply destroy_good in H. split; [eapply good_inv; eauto|]. intros _. apply good_framed; auto.
+  - (* OCleanup *)
+    destruct (cleanup (s_roster s)) as [r' k] eqn:Ec. intro H; injection H as <- <-.
+    assert (G : forall e, good e s (with_roster s r') (ks (mkOut 0 k [] [] [] 0 []))).
+    { intro e. unfold ks, with_roster; cbn [o_kills o_cmds]. rewrite app_nil_r.
+      apply good_mk; [|constructor|].
+      - replace r' with (fst (cleanup (s_roster s))) by (rewrite Ec; reflexivity). constructor. constructor.
+      - intros x Hx. apply cleanup_touched. rewrite Ec. exact Hx. }
+    split; [eapply good_inv; [exact I|apply (G 0)]|]. intros _ e. apply good_framed; auto.
+  - (* OKill *)
+    destruct (kill_tasks ids (s_roster s)) as [r' k] eqn:Ec. intro H; injection H as <- <-.
+    assert (G : forall e, good e s (with_roster s r') (ks (mkOut 0 k [] [] [] 0 []))).
+    { intro e. unfold ks, with_roster; cbn [o_kills o_cmds]. rewrite app_nil_r.
+      apply good_mk; [|constructor|].
+      - replace r' with (fst (kill_tasks ids (s_roster s))) by (rewrite Ec; reflexivity). constructor. constructor.
+      - intros x Hx. eapply kill_touched. rewrite Ec. exact Hx. }
+    split; [eapply good_inv; [exact I|apply (G 0)]|]. intros _ e. apply good_framed; auto.
+  - (* ODies *)
+    intro H; injection H as <- <-. split; [apply dies_inv, I|discriminate].
+Qed.
+
+Lemma valid_run_inv ops : forall s, inv s -> valid_hist s ops = true -> inv (run s ops).
+Proof.
+  induction ops as [|o r IH]; intros s I V; cbn [run]; [exact I|].
+  cbn [valid_hist] in V. apply andb_true_iff in V. destruct V as [W V].
+  apply IH; [|exact V]. destruct (step s o) as [s' u] eqn:E.
+  apply (step_spec s o s' u I W E).
+Qed.
+
+Lemma reachable_inv s : reachable s -> inv s.
+Proof. intros [ops [V ->]]. apply valid_run_inv; [apply inv_st0|exact V]. Qed.
